@@ -663,10 +663,16 @@ func c15Walker(w *World, r *Recorder, name string) {
 	}
 	r.Check(lookupTag == codec, "C15-H4", name+"#tag", w.FnPos(host), "fields are selected by the `"+codec+"` struct tag", fmt.Sprintf("the walker looks up struct tag %q, not %q", lookupTag, codec))
 
-	omitOK, omitWhy := omitDefinition(omitPhi)
-	r.Check(omitPhi != nil && omitOK, "C15-H4", name+"#omitempty-definition", w.FnPos(host), "isOmitEmpty is true only via option == \"omitempty\" over the options after the first", "isOmitEmpty is not defined as 'some option after the key equals \"omitempty\"': "+omitWhy)
-
 	classes := map[string]bool{}
+	defer func() {
+		omitOK, omitWhy := omitDefinition(omitPhi)
+		if omitPhi == nil && !populate && classes["omitempty∧zero"] {
+			// no flag at all: the only omitempty-dependent skip tests the option in place
+			r.Prove("C15-H4", name+"#omitempty-definition", w.FnPos(host), "no flag variable: the zero test is guarded directly by option == \"omitempty\" over the options after the first", true)
+			return
+		}
+		r.Check(omitPhi != nil && omitOK, "C15-H4", name+"#omitempty-definition", w.FnPos(host), "isOmitEmpty is true only via option == \"omitempty\" over the options after the first", "isOmitEmpty is not defined as 'some option after the key equals \"omitempty\"': "+omitWhy)
+	}()
 	c15ClassifyRegion(w, r, name, h4Region{
 		fn: host, in: func(b *ssa.BasicBlock) bool { return li.blocks[b] }, start: header.Succs[0],
 		isCont: func(b *ssa.BasicBlock) bool { return b == header || isLatch(b, latches) },
@@ -763,35 +769,22 @@ func c15Walker(w *World, r *Recorder, name string) {
 // recognised conditions or ends the walk with an error.
 func c15ClassifyRegion(w *World, r *Recorder, name string, rg h4Region, codec string, populate bool, classes map[string]bool) {
 	fn, act, omitPhi := rg.fn, rg.act, rg.omit
-	// reachability within one field's handling
-	reachesAct := map[*ssa.BasicBlock]bool{}
-	var dfs func(b *ssa.BasicBlock) bool
-	visiting := map[*ssa.BasicBlock]int{}
-	dfs = func(b *ssa.BasicBlock) bool {
-		if b == act {
-			return true
-		}
-		if rg.isCont(b) || !rg.in(b) {
-			return false
-		}
-		if v, ok := visiting[b]; ok {
-			return v == 2
-		}
-		visiting[b] = 1
-		res := false
-		for _, s := range b.Succs {
-			if dfs(s) {
-				res = true
+	// reachability within one field's handling: the blocks of the region from
+	// which the act can be reached without going on to the next field (backward
+	// from the act; inner loops are cycles inside the region)
+	reachesAct := map[*ssa.BasicBlock]bool{act: true}
+	work := []*ssa.BasicBlock{act}
+	for len(work) > 0 {
+		b := work[len(work)-1]
+		work = work[:len(work)-1]
+		for _, p := range b.Preds {
+			if reachesAct[p] || !rg.in(p) || rg.isCont(p) {
+				continue
 			}
+			reachesAct[p] = true
+			work = append(work, p)
 		}
-		if res {
-			visiting[b] = 2
-		}
-		reachesAct[b] = res
-		return res
 	}
-	dfs(rg.start)
-	reachesAct[act] = true
 
 	type step = walkStep
 	// follow a path that has left the act-reaching region until it continues
@@ -1283,6 +1276,11 @@ func classifySkip(w *World, b *ssa.BasicBlock, ifi *ssa.If, succ int, omitPhi ss
 					}
 				}
 			}
+			// no flag variable: the zero test itself sits under option == "omitempty"
+			// for one of the options after the key
+			if guardedByOmitemptyOption(b.Parent(), b, nil) {
+				return "omitempty∧zero"
+			}
 			return "?zero-without-omitempty"
 		}
 	case *ssa.Extract:
@@ -1510,6 +1508,11 @@ func omitUnderAbsence(b *ssa.BasicBlock) string {
 func optionsAfterKey(v ssa.Value) bool { return optionsAfterKeyEnv(v, nil) }
 
 func optionsAfterKeyEnv(v ssa.Value, env map[*ssa.Parameter]ssa.Value) bool {
+	// strings.Split(rest, ",") with rest what strings.Cut(tag, ",") leaves
+	// after the first comma: every option after the key
+	if c, ok := resolveEnv(v, env).(*ssa.Call); ok && calleeName(&c.Call) == "strings.Split" && len(c.Call.Args) == 2 && isCommaConst(c.Call.Args[1]) {
+		return isRemainderAfterComma(resolveEnv(c.Call.Args[0], env), map[ssa.Value]bool{})
+	}
 	sl, ok := resolveEnv(v, env).(*ssa.Slice)
 	if !ok || sl.High != nil {
 		return false
